@@ -365,6 +365,16 @@ class ChunkIO(RuleBasedStateMachine):
             self.fail("%s: read_chunk(%s, %s) failed: %s %s" % (
                 who, sc["key"], cc, type(exc).__name__, exc))
         self.compare(sc, cc, got, self.model[(si, cc)], who)
+        # the array handed out by the previous read is still in use (a caller
+        # that assembles a volume from several chunks): it must not change
+        kept = getattr(self, "_kept_read", None)
+        if kept is not None and kept[0] is not got:
+            ksc, kcc, karr, kwant = kept
+            self.compare(ksc, kcc, karr, kwant,
+                         who + " (array returned by the previous read_chunk, "
+                         "looked at again after this one)")
+            self.flags.add("earlier_read_result_rechecked")
+        self._kept_read = (sc, cc, got, self.model[(si, cc)])
         if (si, cc) in self.reopened_keys:
             self.flags.add("read_after_reopen")
         want = self.model[(si, cc)]
